@@ -17,6 +17,24 @@ abbrev reach (w : Nat) (ks : List K) : TC K := (TC.init w : TC K).addAll ks
 theorem history_is_stream (w : Nat) (ops : List (Op K)) :
     TC.run w ops = reach w (stream ops) := run_eq_addAll w ops
 
+/-- the true count of `k` in a history is the sum of what each public call asks for: 1 per `add(k)` /
+    occurrence in an iterable, the given count per mapping entry and per keyword - a key given both in
+    the positional mapping and as a keyword receives BOTH counts (`Op.weight`) -/
+theorem true_count_of_history (ops : List (Op K)) (k : K) :
+    (stream ops).count k = (ops.map (Op.weight k)).sum := stream_count ops k
+
+/-- one `update(mapping, **kwargs)` call adds, for every key, the mapping's count plus the keyword's count -/
+theorem update_mapping_and_keywords_add (kcs kws : List (K × Nat)) (k : K) :
+    (Op.updateMapKw kcs kws).flatten.count k = wsum k kcs + wsum k kws := flatten_count _ k
+
+/-- `update(other_counter)` raises `total` by the sum of the other counter's reported counts
+    (also when `other` is the counter itself) -/
+theorem absorb_total (s src : TC K) : (s.absorb src).total = s.total + src.commonCount := by
+  unfold TC.absorb TC.step
+  rw [addAll_total]
+  simp only [Op.flatten, length_expand, TC.items, TC.commonCount, List.map_map]
+  rfl
+
 /-- `total` equals the number of additions -/
 theorem total_eq_additions (w : Nat) (ks : List K) : (reach w ks).total = ks.length := by
   simp [reach, addAll_total, TC.init]
@@ -147,5 +165,11 @@ example : (reach 3 [0, 1, 1, 0, 2, 2, 0]).items = [(2, 2), (0, 1)] := by decide
 example : ((reach 3 [0, 1, 1, 0, 2, 2, 0]).get 0, [0, 1, 1, 0, 2, 2, 0].count 0,
            (reach 3 [0, 1, 1, 0, 2, 2, 0]).total / 3) = (1, 3, 2) := by decide
 example : (reach 24 sizeWitness).len = 49 := by decide +kernel
+-- a key given positionally (3) and as a keyword (2) in ONE update call is counted 5 times
+example : ((TC.run 9 [Op.updateMapKw [(0, 3), (1, 1)] [(0, 2)]]).get 0,
+           (TC.run 9 [Op.updateMapKw [(0, 3), (1, 1)] [(0, 2)]]).total) = (5, 6) := by decide
+-- self-update doubles the reported counts
+example : (((TC.run 9 [Op.updateKeys [0, 0, 1]]).absorb (TC.run 9 [Op.updateKeys [0, 0, 1]])).items)
+    = [(0, 4), (1, 2)] := by decide
 
 end C20
